@@ -1,7 +1,7 @@
 (* C12 -- statements only; see DESIGN.md section 6 C12.  Theorems are added as the proofs land;
    the witnesses below are evaluated in the kernel on the whole-parser model. *)
 From Coq Require Import String.
-From MdIt Require Import Prims Tables Escape Tree Render Core Dump Dispatch EscapeProofs.
+From MdIt Require Import Prims Tables Escape Tree Render Core Dump Dispatch EscapeProofs EscapeCtxProofs.
 Local Open Scope string_scope.
 Local Open Scope list_scope.
 Local Open Scope N_scope.
@@ -50,6 +50,27 @@ Proof. exact escape_decodes. Qed.
 Theorem C12_escape_other : forall c, is_ascii_punct c = false -> c <> 38 -> c <> 92 -> unescape_all [92; c] = [92; c].
 Proof. exact escape_other_stays. Qed.
 
+(* IN CONTEXT: destinations, titles, definitions and info strings are decoded by unescape_all applied to the whole
+   string; plain text around a complete reference or escape passes through and the reference decodes to the same
+   characters as when it stands alone -- so what it denotes does not depend on what surrounds it *)
+Theorem C12_escape_in_context : forall pre d post, forallb plain pre = true -> is_ascii_punct d = true ->
+  unescape_all (pre ++ 92 :: d :: post) = pre ++ d :: unescape_all post.
+Proof. exact escape_in_context. Qed.
+
+Theorem C12_numeric_in_context : forall pre body code post, forallb plain pre = true -> numeric_code body = Some code ->
+  unescape_all (pre ++ 38 :: 35 :: body ++ 59 :: post) = pre ++ code_to_str code ++ unescape_all post.
+Proof. exact numeric_in_context. Qed.
+
+Theorem C12_named_in_context : forall pre c body v post, forallb plain pre = true ->
+  is_alpha c = true -> forallb is_alnum body = true -> (1 <=? len body) && (len body <=? 31) = true ->
+  get_entity_from_str (38 :: c :: body ++ [59]) = Some v ->
+  unescape_all (pre ++ 38 :: c :: body ++ 59 :: post) = pre ++ v ++ unescape_all post.
+Proof. exact named_in_context. Qed.
+
+Example C12_context_nonvacuous :
+  unescape_all (bs "/p&amp;z\*&#x41;") = bs "/p&z*A" /\ forallb plain (bs "/p") = true.
+Proof. vm_compute. split; reflexivity. Qed.
+
 Example C12_nonvacuous :
   numeric_code (bs "x1F600") = Some 0x1F600 /\ numeric_code (bs "0000000") = Some 0 /\
   code_to_str 0 = [239; 191; 189] /\ get_entity_from_str (bs "&amp;") = Some [38] /\ is_ascii_punct 96 = true.
@@ -59,3 +80,6 @@ Print Assumptions C12_named.
 Print Assumptions C12_numeric.
 Print Assumptions C12_valid_code.
 Print Assumptions C12_escape.
+Print Assumptions C12_escape_in_context.
+Print Assumptions C12_numeric_in_context.
+Print Assumptions C12_named_in_context.
